@@ -28,6 +28,8 @@ def run_unit(pid, unit, tier, seed, known):
         return su.unit_native('rerun', su.rerun_args(tier, seed), 'rerun-histories-native', su.RERUN_BOUND)
     if unit == 'scheduler_init':
         return su.unit_scheduler_init(tier, pid)
+    if unit == 'backend_init':
+        return su.unit_backend_init(tier, pid)
     if unit == 'schedule':
         return su.unit_schedule(tier, pid)
     if unit.startswith('dg_'):
